@@ -25,7 +25,7 @@ import os
 import warnings
 
 ID = "C14"
-QUICK_N = 420
+QUICK_N = 360
 THOROUGH_N = 15000
 QUICK_BUDGET_S = 80
 THOROUGH_BUDGET_S = 900
@@ -131,7 +131,7 @@ def gen_labels(rng, n):
     return xs
 
 
-def gen_list(rng, game, slot, keys, n):
+def gen_list(rng, game, slot, keys, n, flags=None):
     """column -> values (only the columns that are not left at their default)"""
     d = {}
     offs = [g_off(rng) for _ in range(n)]
@@ -171,10 +171,9 @@ def gen_list(rng, game, slot, keys, n):
             d["addition_set"] = [rng.choice([0, 1, 3]) for _ in range(n)]
             d["custom_set"] = [rng.choice([0, 0, 5]) for _ in range(n)]
     if game == "quaver" and slot in ("hits", "holds"):
-        m = rng.random()
-        if m < 0.5:        # list-valued cells (what the reader produces)
+        if (flags or {}).get("qua_lists", rng.random() < 0.3):        # list-valued cells (what the reader produces)
             d["keysounds"] = [[] if rng.random() < 0.6 else [rng.choice(["k1", "k2"])] for _ in range(n)]
-    if game == "bms" and slot in ("hits", "holds") and rng.random() < 0.9:
+    if game == "bms" and slot in ("hits", "holds") and (flags or {}).get("bms_bytes", True):
         d["sample"] = ["%02d" % rng.randrange(1, 40) for _ in range(n)]      # bytes on construction
     if game == "o2jam" and slot in ("hits", "holds") and rng.random() < 0.5:
         d["volume"] = [rng.randrange(0, 16) for _ in range(n)]
@@ -182,9 +181,10 @@ def gen_list(rng, game, slot, keys, n):
     return dict(cols=d, labels=gen_labels(rng, n))
 
 
-def gen_map(rng, game, keys, small=False):
-    top_h, top_l = (4, 3) if small else (12, 8)
+def gen_map(rng, game, keys, small=False, large=False):
+    top_h, top_l = (4, 3) if small else (30, 16) if large else (12, 8)
     lists = {}
+    flags = dict(qua_lists=rng.random() < 0.3, bms_bytes=rng.random() < 0.92)
     for slot in SLOTS[game]:
         if slot == "hits":
             n = rng.randint(0, top_h)
@@ -196,9 +196,9 @@ def gen_map(rng, game, keys, small=False):
             n = rng.choice([0, 0, 1, 2, 5])
         else:
             n = rng.choice([0, 0, 0, 1, 3])
-        lists[slot] = gen_list(rng, game, slot, keys, n)
+        lists[slot] = gen_list(rng, game, slot, keys, n, flags)
     if not lists["hits"]["cols"]["offset"] and not lists["holds"]["cols"]["offset"]:
-        lists["hits"] = gen_list(rng, game, "hits", keys, rng.randint(1, 4))
+        lists["hits"] = gen_list(rng, game, "hits", keys, rng.randint(1, 4), flags)
     return dict(lists=lists, meta=gen_meta(rng, game, keys, True))
 
 
@@ -206,7 +206,7 @@ def gen_meta(rng, game, keys, per_map):
     t = rng.choice(["Song", "A:B", "t"])
     if game == "osu":
         return dict(title=t, artist="art", creator="c", version="v", circle_size=keys, preview_time=rng.choice([-1, 1500]),
-                    tags=rng.choice(["", [], ["x", "y"], ["one"]]), audio_file_name="a.mp3")
+                    tags=rng.choice(["", "", "", "a b", [], ["x", "y"]]), audio_file_name="a.mp3")
     if game == "quaver":
         return dict(title=t, artist="art", creator="c", difficulty_name="v", mode=f"Keys{keys}" if keys in (4, 7) else "Keys4",
                     tags=rng.choice([[], ["p", "q"]]), audio_file="a.mp3")
@@ -325,7 +325,8 @@ def gen(rng, tier, i):
         keys = rng.choice([4, 7, 8])
     nmaps = rng.choice([1, 1, 2]) if game in ("osu", "sm", "o2jam") else 1
     small = rng.random() < 0.3
-    case = dict(claim="history", game=game, keys=keys, maps=[gen_map(rng, game, keys, small) for _ in range(nmaps)],
+    large = tier == "thorough" and not small and rng.random() < 0.15
+    case = dict(claim="history", game=game, keys=keys, maps=[gen_map(rng, game, keys, small, large) for _ in range(nmaps)],
                 setmeta=gen_meta(rng, game, keys, False) if game in ("sm", "o2jam") else {})
     kinds = initial_kinds(game, nmaps)
     nsteps = rng.choice([1, 2, 3, 4, 5, 6, 8, 10])
@@ -334,7 +335,7 @@ def gen(rng, tier, i):
         ops = applicable_ops(game, kinds)
         # favour the non-list operations a little: there are many list ops
         heavy = [o for o in ops if not o.startswith("list.")]
-        heavy += [o for o in heavy if o.startswith("ptn.g")] * 3 + [o for o in heavy if o.startswith("ptn.c")] * 6
+        heavy += [o for o in heavy if o.startswith("ptn.g")] * 4 + [o for o in heavy if o.startswith("ptn.c")] * 12
         op = rng.choice(heavy) if heavy and rng.random() < 0.55 else rng.choice(ops)
         steps.append(gen_step(rng, op, game))
         for kk in result_kinds(op, source_game_of(op, game, kinds)):
@@ -1026,6 +1027,18 @@ def table(drv):
         t = drv.call("c14.table")["ok"]
         for s in t:
             _TABLE[s["name"]] = s
+        # tie of the harness' own tables to the source: list slots of every chart class, converter classes
+        import dataclasses
+        import reamber.algorithms.convert as C
+        from reamber.base.lists.TimedList import TimedList
+        for g in GAMES:
+            m = K(g)["map"]()
+            slots = list(m.objs) + [f.name for f in dataclasses.fields(m) if isinstance(getattr(m, f.name), TimedList)]
+            if sorted(slots) != sorted(SLOTS[g]):
+                raise RuntimeError(f"list slots of {g} changed in the source: {sorted(slots)} vs {sorted(SLOTS[g])}")
+        convs = sorted(n for n in dir(C) if "To" in n and isinstance(getattr(C, n), type))
+        if convs != sorted(c for cs in CONVERTERS.values() for c in cs):
+            raise RuntimeError(f"converter classes changed in the source: {convs}")
     return _TABLE
 
 
@@ -1119,6 +1132,8 @@ def observe(case):
                 tags.append("restore-failed")
         events.append(ev)
         tags.append(op)
+        if op.startswith("list."):
+            tags.append("cls:" + type(args[0]).__name__)
         if any(len(frames[before[r]]["rows"]) > 0 for cells in arg_cells for _, r in cells if is_leaf(heap.objs[r])):
             nonempty = True
         for e in new_entries:
